@@ -1,7 +1,7 @@
 (* C07 -- the generated model instantiated over Q for the correspondence check:
    I and J are finite tables keyed by (phase, a, b), math.log is a rational stand-in
    (x - c) / d on x > 0.  Executable definitions only. *)
-From V Require Import Common.Num C07.Model C07.Gen_FreeEnergy C07.Gen_InitEnergies C07.Gen_MixtureModels.
+From V Require Import Common.Num C07.Model C07.Gen_FreeEnergy C07.Gen_InitEnergies C07.Gen_MixtureModels C07.Gen_InitData.
 Open Scope Q_scope.
 
 Definition QOps (lnc lnd : Q) : Ops Q :=
@@ -121,3 +121,7 @@ Definition sp_T lnc lnd (vals : list (pyv Q)) (mol : list Q) T : pyv Q :=
 Definition sp_TP lnc lnd (vals : list (pyv Q)) (mol : list Q) T P : pyv Q :=
   SinglePhaseIdealTPMixtureModel_call (mix_env lnc lnd) (map (fun v => fun (_ _ : option Q) => v) vals)
     (sparse_items (QOps lnc lnd) mol) T P.
+
+(* Chemical._init_data: the derived entropy of fusion, from the caller's arguments and the stored values *)
+Definition sfus_case (aH aT sH sT : option Q) (expected : pyv Q) : bool :=
+  pyv_approxb (init_data_Sfus (mix_env 0 1) aH aT sH sT) expected.
